@@ -190,11 +190,27 @@ def search(req):
     """bounded random search for an input on which the REAL function violates the clause"""
     rng = random.Random(req.get("seed", 0))
     tried = 0
+    prev = None
     for i in range(req.get("budget", 3000)):
         try:
             args = {k: gen_value(t, rng) for k, t in req["types"].items()}
         except ValueError as e:
             return {"ok": True, "found": False, "reason": str(e), "tried": tried}
+        bkeys = [k for k, t in req["types"].items() if t == "bytes"]
+        if prev is not None and len(bkeys) >= 2 and i % 3 == 1:
+            # related inputs: the same concatenation split differently / two fields swapped (stateful and framing defects)
+            args = dict(prev)
+            a, b = rng.sample(bkeys, 2)
+            if rng.random() < 0.5:
+                cat = args[a] + args[b]
+                k = rng.randrange(len(cat) + 1)
+                args[a], args[b] = cat[:k], cat[k:]
+            else:
+                args[a], args[b] = args[b], args[a]
+        if bkeys and i % 7 == 3:
+            a = rng.choice(bkeys)
+            args[a] = bytes(rng.choice([0, 1])) + args[a] if False else (b"\x00" + args[a])[: rng.choice([1, 2, 3, 33])]
+        prev = dict(args)
         r = replay(dict(func=req["func"], args={k: enc(v) for k, v in args.items()}, clause=req["clause"], requires=req.get("requires", [])))
         if not r.get("precondition_holds", False):
             continue
